@@ -24,6 +24,10 @@ theorem minbalance_formula (P : Params) (a : Account)
   minBalance_closed P.reqs a.totalAssets h1 h2 h3 h4 h5 h6 h7 h8 hta
 
 example : minBalance {} { totalAssets := 3 } = 400000 := by decide
+/-- the hypotheses of `minbalance_formula` hold for the consensus constants of the current protocol (as emitted by the harness) -/
+example : let r : Gen.Fees.basics_BalanceRequirements := ⟨100000, 100000, 100000, 2500, 400, 25000, 3500, 25000⟩
+    r.MinBalance < 2^64 ∧ r.AppFlatParamsMinBalance < 2^64 ∧ r.AppFlatOptInMinBalance < 2^64 ∧ r.BoxFlatMinBalance < 2^64 ∧
+    r.BoxByteMinBalance < 2^64 ∧ r.SchemaMinBalancePerEntry < 2^64 ∧ r.SchemaUintMinBalance < 2^64 ∧ r.SchemaBytesMinBalance < 2^64 := by decide
 
 /-- what `checkMinBalance` guarantees for one account: fully closed (the zero record), or balance with pending rewards at
 least the min balance of ITS OWN post-state (and within `MaximumMinimumBalance` when that is set) -/
